@@ -72,8 +72,11 @@ ModifyReqs ==
   \cup {[Nothing(who) EXCEPT !.approvers = Some(<<"appr1", "appr2", "multi2">>), !.askattrs = Some(<<"kyc">>),
                              !.bidfee_rate = Some(R(2500, "t0")), !.bidfee_acct = Some("bidfee2")]}
   \cup {[Nothing(who) EXCEPT !.funds = Coins1("q1", 1)]}
-  : who \in IF Tier = "quick" THEN {"exec1"} ELSE {"exec1", "exec2", "seller1"}}
-  \cup {Nothing("seller1"), [Nothing("seller1") EXCEPT !.approvers = Some(<<"appr1", "appr2", "multi1">>)]}
+  : who \in IF Tier = "quick" THEN {"exec1"} ELSE {"exec1", "exec2"}}
+  \* a non-executor: nothing, a legal extension, the lists currently in force, a fee pair
+  \cup {Nothing("seller1"), [Nothing("seller1") EXCEPT !.approvers = Some(<<"appr1", "appr2", "multi1">>)],
+        [Nothing("seller1") EXCEPT !.approvers = Some(<<"appr1", "appr2">>), !.executors = Some(<<"exec1", "exec2">>)],
+        [Nothing("seller1") EXCEPT !.bidfee_rate = Some(R(1000, "plain")), !.bidfee_acct = Some("bidfee1")]}
 
 DoInstantiate == ~st.cfg.set /\ \E m \in Cfgs : Step(RInstantiate(m))
 DoCreateAsk   == st.cfg.set /\ \E r \in AskReqs : Step(r)
